@@ -883,6 +883,32 @@ fn op_hook<H: HashChain + 'static>(d: &mut Driver, cmd: &Value) {
                 }
             }
         }
+        // seed derivation below a tree (C08): child seed / identifier, randomizer, chain start values
+        "derive" => {
+            let seed = d.bytes(&cmd["seed"]);
+            let id = d.bytes(&cmd["I"]);
+            let q = u32::from_str_radix(cmd["q"].as_str().unwrap(), 16).unwrap();
+            let ty = cmd["type"].as_u64().unwrap() as u32;
+            let r = guarded(|| vh::derive_below::<H>(&seed, &id, q, ty));
+            ev.insert("seed".into(), json!(hex(&seed)));
+            ev.insert("I".into(), json!(hex(&id)));
+            ev.insert("q".into(), json!(format!("{:08x}", q)));
+            ev.insert("type".into(), json!(ty));
+            let put = |ev: &mut Map<String, Value>, res: &str, v: [String; 5], panic: Option<String>| {
+                ev.insert("res".into(), json!(res));
+                for (k, x) in ["child_seed", "child_I", "randomizer", "x_first", "x_last"].iter().zip(v.iter()) {
+                    ev.insert((*k).into(), json!(x));
+                }
+                if let Some(m) = panic {
+                    ev.insert("panic".into(), json!(m));
+                }
+            };
+            match r {
+                Ok(Some((cs, ci, c, xf, xl))) => put(&mut ev, "ok", [hex(cs.as_slice()), hex(&ci), hex(c.as_slice()), hex(xf.as_slice()), hex(xl.as_slice())], None),
+                Ok(None) => put(&mut ev, "none", Default::default(), None),
+                Err(m) => put(&mut ev, "panic", Default::default(), Some(m)),
+            }
+        }
         "zeroize" => {
             let ty = cmd["type_name"].as_str().unwrap().to_string();
             let fill = cmd["fill"].as_u64().unwrap() as u8;
